@@ -22,12 +22,18 @@ class Environment:
 
     # Special mode flags
     autoref: str     = None          # Reference on the current node
+    current: object  = None          # Node that was defined or modified last; property lines belong to it
     envtype: EnvType = EnvType.DATA  # Documentation mode
     
     def copy(self):
         """ Copy a new object from self
         """
         return copy.deepcopy(self)
+
+    def property_target(self):
+        """ Node to which a following property line (option, condition, format, ...) belongs
+        """
+        return self.nodes[-1] if self.current is None else self.current
 
     def request(self, path:str, count:int=None, namespace:Namespace=Namespace.NODES, tags:list=None, errsrc:bool=True):
         """ Request nodes from a path
